@@ -39,6 +39,9 @@ func c13Oracle(sp *Spec, x *X, res *mcrt.Result) (string, string) {
 		var text string
 		fmt.Sscanf(c.Op[strings.Index(c.Op, "(")+1:len(c.Op)-1], "%q", &text)
 		n := strings.Count(out, text)
+		if text == "" {
+			n = 0 // an empty Write has nothing to emit; only its result is checked
+		}
 		late := c.Inv >= x.WaitStep
 		switch {
 		case c.Ret == 0:
@@ -127,7 +130,7 @@ func c13Programs(tier string) []*Spec {
 				if two {
 					sp.Clients = append(sp.Clients, []Op{{K: "write", S: "second-writer-1\n"}, {K: "write", S: "second-writer-2\n"}})
 				}
-				sp.Late = []Op{{K: "write", S: "too-late\n"}}
+				sp.Late = []Op{{K: "write", S: "too-late\n"}, {K: "write", S: ""}}
 				out = append(out, sp)
 			}
 		}
@@ -147,7 +150,7 @@ func c13Programs(tier string) []*Spec {
 			sp.Main = []Op{{K: "add", B: 0}}
 			sp.Clients = [][]Op{completeOps(0, 2), {{K: "writebuf", S: "scratch-alpha-long\n"}, {K: "writebuf", S: "scratch-bravo\n"}, {K: "writebuf", S: "s-charlie\n"}}}
 		}
-		sp.Late = []Op{{K: "write", S: "too-late\n"}}
+		sp.Late = []Op{{K: "write", S: "too-late\n"}, {K: "write", S: ""}}
 		out = append(out, sp)
 	}
 	// a render error ends the container: text written after it must not be accepted and then dropped
@@ -161,7 +164,7 @@ func c13Programs(tier string) []*Spec {
 			c = append(c, Op{K: "refresh"}, Op{K: "refresh"}, Op{K: "refresh"})
 		}
 		sp.Clients = [][]Op{c, w}
-		sp.Late = []Op{{K: "write", S: "too-late\n"}}
+		sp.Late = []Op{{K: "write", S: "too-late\n"}, {K: "write", S: ""}}
 		out = append(out, sp)
 	}
 	// render delay: once the delay is over and frames are being written, text goes out like anywhere else
@@ -171,7 +174,7 @@ func c13Programs(tier string) []*Spec {
 		sp.Main = []Op{{K: "add", B: 0}, {K: "add", B: 1}}
 		// Bar.Wait on bar 0 returns only after it was rendered finished: rendering has started by then
 		sp.Clients = [][]Op{{{K: "undelay"}, {K: "incr", B: 0, N: 1}, {K: "barwait", B: 0}, {K: "write", S: "delay-alpha\n"}, {K: "write", S: "delay-bravo\n"}, {K: "incr", B: 1, N: 2}}}
-		sp.Late = []Op{{K: "write", S: "too-late\n"}}
+		sp.Late = []Op{{K: "write", S: "too-late\n"}, {K: "write", S: ""}}
 		out = append(out, sp)
 	}
 	// manual refresh with a final client refresh after the last write (main refreshes before Wait)
@@ -179,7 +182,7 @@ func c13Programs(tier string) []*Spec {
 	sp.Bars = []BarSpec{{Total: 1}}
 	sp.Main = []Op{{K: "add", B: 0}, {K: "write", S: "m-one\n"}, {K: "refresh"}, {K: "write", S: "m-two\n"}, {K: "incr", B: 0, N: 1}, {K: "refresh"}, {K: "refresh"}}
 	sp.Clients = [][]Op{{{K: "refresh"}}}
-	sp.Late = []Op{{K: "write", S: "too-late\n"}}
+	sp.Late = []Op{{K: "write", S: "too-late\n"}, {K: "write", S: ""}}
 	out = append(out, sp)
 	return out
 }
